@@ -1,6 +1,7 @@
 package relaysim
 
 import (
+	"crypto/sha256"
 	"context"
 	"crypto/ed25519"
 	"encoding/base64"
@@ -634,7 +635,7 @@ func (c *c04) act(h int, m map[string]any, faultMode int) {
 		hs, _ := m["hashes"].(map[string]any)
 		old, _ := hs["sha256"].(string)
 		raw, derr := base64.RawStdEncoding.DecodeString(old)
-		op := t.Intn(6)
+		op := t.Intn(7)
 		if hs == nil || derr != nil || len(raw) == 0 {
 			op = 3
 		}
@@ -657,6 +658,31 @@ func (c *c04) act(h int, m map[string]any, faultMode int) {
 		case 5:
 			delete(hs, "sha256")
 			what = "delete_sha256"
+		case 6:
+			// The right hash of the fields as they are now, under a member name
+			// that only resembles sha256; sha256 itself is dropped or spoiled.
+			// No hash of that name vouches for the fields: redacted form only.
+			proj := map[string]any{}
+			for k, v := range m {
+				proj[k] = v
+			}
+			for _, k := range c.stripped() {
+				delete(proj, k)
+			}
+			pb, _ := json.Marshal(proj)
+			cj, cerr := gmsl.CanonicalJSON(pb)
+			if cerr != nil {
+				return
+			}
+			sum := sha256.Sum256(cj)
+			hs[sim.Pick(t, []string{"SHA256", "Sha256", "\u017fha256", "sha256 ", "sha-256"})] = base64.RawStdEncoding.EncodeToString(sum[:])
+			if t.Bool() {
+				delete(hs, "sha256")
+			} else {
+				raw[0] ^= 0x40
+				hs["sha256"] = base64.RawStdEncoding.EncodeToString(raw)
+			}
+			what = "lookalike_member"
 		}
 		c.fire("hash_edit")
 		r.Probe("hash_" + what)
